@@ -649,6 +649,34 @@ func RuleKPartChain(c *core.Ctx) {
 			if prm, ok := v.(*ssa.Parameter); ok && isNamed(prm.Type(), periodT) {
 				windowFields[core.FieldOf(fa)] = true
 			}
+			// a component of the window (period.Start, period.End) kept in a field of its own
+			// (the stored value is the component itself, not something computed from it)
+			direct := core.Strip(st.Val)
+			if ld, ok := direct.(*ssa.UnOp); ok && ld.Op == token.MUL {
+				direct = ld.X
+			}
+			for _, x := range []ssa.Value{direct} {
+				var base ssa.Value
+				switch y := x.(type) {
+				case *ssa.FieldAddr:
+					base = y.X
+				case *ssa.Field:
+					base = y.X
+				}
+				if base == nil {
+					continue
+				}
+				if prm, ok := core.Strip(base).(*ssa.Parameter); ok && isNamed(prm.Type(), periodT) {
+					windowFields[core.FieldOf(fa)] = true
+				}
+				if al, ok := base.(*ssa.Alloc); ok {
+					if sts := core.StoresTo(al); len(sts) == 1 {
+						if prm, ok := core.Strip(sts[0].Val).(*ssa.Parameter); ok && isNamed(prm.Type(), periodT) {
+							windowFields[core.FieldOf(fa)] = true
+						}
+					}
+				}
+			}
 		})
 		for _, m := range p.SrcFuncs() {
 			if core.PkgPathOf(m) != pkgDate || m.Signature.Recv() == nil || partT == nil || !isNamed(derefType(m.Signature.Recv().Type()), partT) {
@@ -715,70 +743,112 @@ func RuleKPartAlign(c *core.Ctx) {
 		return f == periodsF
 	}
 	var search *ssa.Call
+	var index ssa.Value // the position found
+	libSearch := false
 	core.EachInstr(cl, func(ins ssa.Instruction) {
 		if call, ok := ins.(*ssa.Call); ok {
 			if callee := call.Call.StaticCallee(); callee != nil && callee.Pkg != nil && callee.Pkg.Pkg.Path() == "sort" && callee.Name() == "Search" {
-				search = call
+				search, index = call, call
+			}
+			if callee := call.Call.StaticCallee(); callee != nil && core.PkgPathOf(core.OriginOf(callee)) == "slices" && core.BaseName(callee) == "BinarySearchFunc" {
+				search, libSearch = call, true
+				if call.Referrers() != nil {
+					for _, r := range *call.Referrers() {
+						if ex, ok := r.(*ssa.Extract); ok && ex.Index == 0 {
+							index = ex
+						}
+					}
+				}
 			}
 		}
 	})
+	if libSearch && search != nil && index != nil {
+		// slices.BinarySearchFunc(periods, d, func(p Period, d time.Time) int { return p.End.Compare(d) })
+		okArgs := isPeriods(search.Call.Args[0])
+		okCmp := false
+		if cmpFn := core.FuncValue(search.Call.Args[2]); cmpFn != nil && len(cmpFn.Params) == 2 && len(cmpFn.Blocks) == 1 {
+			if ret, ok := cmpFn.Blocks[0].Instrs[len(cmpFn.Blocks[0].Instrs)-1].(*ssa.Return); ok && len(ret.Results) == 1 {
+				if call := isTimeMethod(ret.Results[0], "Compare"); call != nil {
+					recvEnd := false
+					for v := range originSet(p, call.Call.Args[0], 0) {
+						switch x := v.(type) {
+						case *ssa.FieldAddr:
+							recvEnd = recvEnd || core.FieldOf(x).Name() == "End"
+						case *ssa.Field:
+							recvEnd = recvEnd || core.FieldOf(x).Name() == "End"
+						}
+					}
+					if recvEnd && core.Strip(call.Call.Args[1]) == ssa.Value(cmpFn.Params[1]) {
+						okCmp = true
+					}
+				}
+			}
+		}
+		if okArgs && okCmp {
+			c.Ob(rule, fname+":binary search", search.Pos(), fname, core.Discharged, "slices.BinarySearchFunc(periods, d, (p, d) -> p.End.Compare(d)): the first period that does not end before d")
+		} else {
+			c.Ob(rule, fname+":binary search", search.Pos(), fname, core.Violated, "the binary search does not run over the periods with a comparison of each period's End with the date: a date is attributed to the wrong period")
+		}
+	}
 	if search == nil {
 		c.Ob(rule, fname+":binary search", cl.Pos(), fname, core.Undecided, "Align does not use sort.Search: its shape is not known to this rule")
 		return
 	}
-	// length argument
-	okLen := false
-	if call, ok := search.Call.Args[0].(*ssa.Call); ok {
-		if b, ok := call.Call.Value.(*ssa.Builtin); ok && b.Name() == "len" && isPeriods(call.Call.Args[0]) {
-			okLen = true
+	if !libSearch {
+		// length argument
+		okLen := false
+		if call, ok := search.Call.Args[0].(*ssa.Call); ok {
+			if b, ok := call.Call.Value.(*ssa.Builtin); ok && b.Name() == "len" && isPeriods(call.Call.Args[0]) {
+				okLen = true
+			}
 		}
-	}
-	// predicate
-	okPred, whyPred := false, "the predicate is not a function literal"
-	if pred := core.FuncValue(search.Call.Args[1]); pred != nil && len(pred.Params) == 1 {
-		whyPred = "the predicate is not !periods[i].End.Before(d)"
-		for _, b := range pred.Blocks {
-			ret, ok := b.Instrs[len(b.Instrs)-1].(*ssa.Return)
-			if !ok || len(ret.Results) != 1 {
-				continue
-			}
-			not, ok := ret.Results[0].(*ssa.UnOp)
-			if !ok || not.Op != token.NOT {
-				continue
-			}
-			call := isTimeMethod(not.X, "Before")
-			if call == nil {
-				continue
-			}
-			// receiver: periods[i].End
-			recvOK := false
-			if ld, ok := call.Call.Args[0].(*ssa.UnOp); ok {
-				if fa, ok := ld.X.(*ssa.FieldAddr); ok && core.FieldOf(fa).Name() == "End" {
-					if ia, ok := fa.X.(*ssa.IndexAddr); ok && ia.Index == ssa.Value(pred.Params[0]) && isPeriods(ia.X) {
-						recvOK = true
+		// predicate
+		okPred, whyPred := false, "the predicate is not a function literal"
+		if pred := core.FuncValue(search.Call.Args[1]); pred != nil && len(pred.Params) == 1 {
+			whyPred = "the predicate is not !periods[i].End.Before(d)"
+			for _, b := range pred.Blocks {
+				ret, ok := b.Instrs[len(b.Instrs)-1].(*ssa.Return)
+				if !ok || len(ret.Results) != 1 {
+					continue
+				}
+				not, ok := ret.Results[0].(*ssa.UnOp)
+				if !ok || not.Op != token.NOT {
+					continue
+				}
+				call := isTimeMethod(not.X, "Before")
+				if call == nil {
+					continue
+				}
+				// receiver: periods[i].End
+				recvOK := false
+				if ld, ok := call.Call.Args[0].(*ssa.UnOp); ok {
+					if fa, ok := ld.X.(*ssa.FieldAddr); ok && core.FieldOf(fa).Name() == "End" {
+						if ia, ok := fa.X.(*ssa.IndexAddr); ok && ia.Index == ssa.Value(pred.Params[0]) && isPeriods(ia.X) {
+							recvOK = true
+						}
 					}
 				}
-			}
-			// argument: the date being aligned (the closure's parameter, captured)
-			argOK := false
-			for v := range originSet(p, call.Call.Args[1], 0) {
-				if prm, ok := v.(*ssa.Parameter); ok && prm.Parent() == cl {
-					argOK = true
+				// argument: the date being aligned (the closure's parameter, captured)
+				argOK := false
+				for v := range originSet(p, call.Call.Args[1], 0) {
+					if prm, ok := v.(*ssa.Parameter); ok && prm.Parent() == cl {
+						argOK = true
+					}
+				}
+				if recvOK && argOK && len(pred.Blocks) == 1 {
+					okPred = true
 				}
 			}
-			if recvOK && argOK && len(pred.Blocks) == 1 {
-				okPred = true
+		}
+		if okLen && okPred {
+			c.Ob(rule, fname+":binary search", search.Pos(), fname, core.Discharged, "sort.Search(len(periods), i -> !periods[i].End.Before(d))")
+		} else {
+			why := whyPred
+			if !okLen {
+				why = "the search does not run over len(periods)"
 			}
+			c.Ob(rule, fname+":binary search", search.Pos(), fname, core.Violated, why+": a date is attributed to the wrong period")
 		}
-	}
-	if okLen && okPred {
-		c.Ob(rule, fname+":binary search", search.Pos(), fname, core.Discharged, "sort.Search(len(periods), i -> !periods[i].End.Before(d))")
-	} else {
-		why := whyPred
-		if !okLen {
-			why = "the search does not run over len(periods)"
-		}
-		c.Ob(rule, fname+":binary search", search.Pos(), fname, core.Violated, why+": a date is attributed to the wrong period")
 	}
 	// results
 	for _, b := range cl.Blocks {
@@ -800,11 +870,13 @@ func RuleKPartAlign(c *core.Ctx) {
 				sides = append(sides, side == 0)
 			}
 		}
+		flipped := false
 		inRange := func(iff *ssa.If) bool {
 			bo, ok := iff.Cond.(*ssa.BinOp)
-			if !ok || bo.Op != token.LSS || bo.X != ssa.Value(search) {
+			if !ok || (bo.Op != token.LSS && bo.Op != token.GEQ) || bo.X != index {
 				return false
 			}
+			flipped = bo.Op == token.GEQ
 			call, ok := bo.Y.(*ssa.Call)
 			if !ok {
 				return false
@@ -813,10 +885,13 @@ func RuleKPartAlign(c *core.Ctx) {
 			return ok && bi.Name() == "len" && isPeriods(call.Call.Args[0])
 		}
 		good := len(conds) == 1 && inRange(conds[0])
+		if good && flipped {
+			sides[0] = !sides[0]
+		}
 		isEnd := false
 		if ld, ok := ret.Results[0].(*ssa.UnOp); ok {
 			if fa, ok := ld.X.(*ssa.FieldAddr); ok && core.FieldOf(fa).Name() == "End" {
-				if ia, ok := fa.X.(*ssa.IndexAddr); ok && ia.Index == ssa.Value(search) && isPeriods(ia.X) {
+				if ia, ok := fa.X.(*ssa.IndexAddr); ok && ia.Index == index && isPeriods(ia.X) {
 					isEnd = true
 				}
 			}
